@@ -279,11 +279,143 @@ let op_less3 r = function
     end
   | _ -> failwith "less3: fields"
 
+(* ---------- op: scan ---------- *)
+let split_on c s = if s = "-" || s = "" then [] else String.split_on_char c s
+
+let source_of content sched final : M.source =
+  let sc = List.map (fun p ->
+    let we = String.length p > 0 && p.[String.length p - 1] = 'e' in
+    let ns = if we then String.sub p 0 (String.length p - 1) else p in
+    (nat_of_int (int_of_string ns), we)) (split_on ',' sched) in
+  let fin = if final = "eof" then M.EOF else
+    M.Fail (n_of_int (int_of_string (String.sub final 5 (String.length final - 5)))) in
+  { M.rest = bytes_of_hex content; sched = sc; final = fin }
+
+let err_class = function
+  | M.ENil -> "nil"
+  | M.EIo M.EOF -> "eof"
+  | M.EIo (M.Fail c) -> "fail:" ^ string_of_int (int_of_n c)
+  | M.EIo M.NoProgress -> "noprogress"
+  | M.EScan _ -> "scan"
+
+(* unicode.ToUpper is not modelled: IsExported is masked for symbols whose
+   last dot-separated part starts with a non-ASCII byte *)
+let mask_func (f : M.func) : M.func =
+  let nm = string_of_bytes f.M.fName in
+  let last = match String.rindex_opt nm '.' with Some i -> String.sub nm (i + 1) (String.length nm - i - 1) | None -> nm in
+  if String.length last > 0 && Char.code last.[0] >= 128 && not f.M.isPkgMain then { f with M.isExported = false } else f
+let mask_call (c : M.call) = { c with M.cFunc = mask_func c.M.cFunc }
+let mask_stack (s : M.stack) = { s with M.calls = List.map mask_call s.M.calls }
+let mask_goroutine (g : M.goroutine) =
+  { g with M.gSig = { g.M.gSig with M.createdBy = mask_stack g.M.gSig.M.createdBy; sStack = mask_stack g.M.gSig.M.sStack } }
+let canon_gs gs = sx_to_string (sx_of_goroutines (List.map mask_goroutine gs))
+
+let is_prefix p s = String.length p <= String.length s && String.sub s 0 (String.length p) = p
+let is_suffix p s = let lp = String.length p and ls = String.length s in lp <= ls && String.sub s (ls - lp) lp = p
+
+(* complete lines (through LF) of s, and the unterminated tail *)
+let split_lines (s : string) : string list * string =
+  let n = String.length s in
+  let rec go st acc =
+    match String.index_from_opt s st '\n' with
+    | Some i -> go (i + 1) (String.sub s st (i + 1 - st) :: acc)
+    | None -> (List.rev acc, String.sub s st (n - st)) in
+  if n = 0 then ([], "") else go 0 []
+
+let op_scan r = function
+  | [content; sched; final; na; kind; expect; aux; i_snap; i_writes; i_suffix; i_unread; i_err; i_reads; oneshot] ->
+    let src = source_of content sched final in
+    let content_s = unhex content in
+    tag r ("kind=" ^ kind);
+    tag r ("err=" ^ i_err);
+    if oneshot <> "1" then flag r "prop:C09:delivery-dependent";
+    let impl_panic = starts_with i_snap "PANIC" in
+    if impl_panic then flag r "impl:panic";
+    let i_fwd = String.concat "" (List.map unhex (split_on ',' i_writes)) in
+    let i_rest = unhex i_suffix ^ unhex i_unread in
+    let i_gs = if impl_panic || i_snap = "nil" then None else Some (goroutines_of (parse_sx i_snap)) in
+    (match i_gs with Some gs -> tag r (Printf.sprintf "gs=%d" (min 9 (List.length gs))) | None -> tag r "gs=nil");
+    (* ---- model ---- *)
+    (match M.scan_snapshot (na = "1") src with
+     | M.Panic m -> flag r "model:panic"; if not impl_panic then flag r "corr:panic"
+     | M.Ok res ->
+       if impl_panic then flag r "corr:panic" else begin
+         let m_snap = match res.M.snap with None -> "nil" | Some gs -> canon_gs gs in
+         let i_snap_c = match i_gs with None -> "nil" | Some gs -> canon_gs gs in
+         if m_snap <> i_snap_c then flag r "corr:snap";
+         if string_of_bytes res.M.fwd <> i_fwd then flag r "corr:fwd";
+         let m_rest = string_of_bytes res.M.suffix ^ string_of_bytes res.M.unread.M.rest in
+         if m_rest <> i_rest then flag r "corr:rest";
+         if string_of_bytes res.M.suffix <> unhex i_suffix then flag r "corr:suffix";
+         if err_class res.M.rerr_out <> i_err then flag r "corr:err";
+         (* trace: every Read with len(p) and the bytes written before it; every Write *)
+         let written = ref 0 in
+         let reads = ref [] and writes = ref [] in
+         List.iter (function
+           | M.EvRead lp -> reads := (string_of_int (int_of_nat lp) ^ "@" ^ string_of_int !written) :: !reads
+           | M.EvWrite d -> let s = string_of_bytes d in written := !written + String.length s; writes := hex s :: !writes) res.M.trace;
+         if String.concat "," (List.rev !reads) <> (if i_reads = "-" then "" else i_reads) then flag r "corr:reads";
+         if String.concat "," (List.rev !writes) <> (if i_writes = "-" then "" else i_writes) then flag r "corr:writes"
+       end);
+    if not impl_panic then begin
+      (* ---- C02: conservation, on implementation output alone ---- *)
+      (* content = fwd ++ D ++ rest, D empty iff no snapshot *)
+      if not (is_prefix i_fwd content_s) then flag r "prop:C02:fwd-not-prefix"
+      else if not (is_suffix i_rest content_s) || String.length i_fwd + String.length i_rest > String.length content_s
+      then flag r "prop:C02:rest-not-suffix"
+      else begin
+        let d = String.sub content_s (String.length i_fwd) (String.length content_s - String.length i_fwd - String.length i_rest) in
+        if d = "" && i_gs <> None then flag r "prop:C02:snapshot-without-region";
+        if d <> "" && i_gs = None then begin
+          (* K1: only false race-header lines may be withheld without a snapshot *)
+          let ls, tl = split_lines d in
+          if tl = "" && List.for_all (fun l -> let t = String.trim l in t = "==================" || t = "WARNING: DATA RACE") ls
+          then flag r "known:K1" else flag r "prop:C02:bytes-lost"
+        end;
+        (match kind with
+         | "junk" -> if i_fwd <> content_s then flag r "prop:C02:junk-not-identity"
+         | "stream" ->
+           (match split_on ',' aux with
+            | [] -> if i_fwd <> content_s then flag r "prop:C02:junk-not-identity"
+            | reg :: _ ->
+              (match String.split_on_char ':' reg with
+               | [s0; e0] ->
+                 let s0 = int_of_string s0 and e0 = int_of_string e0 in
+                 if String.length i_fwd <> s0 then flag r "prop:C02:region-start"
+                 else if String.length content_s - String.length i_rest <> e0 then flag r "prop:C02:region-end"
+               | _ -> failwith "region"))
+         | "dump" | "race" ->
+           (match String.split_on_char ',' aux with
+            | [pre; post] ->
+              if String.length i_fwd <> int_of_string pre then flag r "prop:C02:region-start";
+              if String.length i_rest <> int_of_string post then flag r "prop:C02:region-end"
+            | _ -> failwith "aux")
+         | _ -> ())
+      end;
+      (* ---- C01 / C08: the snapshot the printed AST denotes ---- *)
+      if kind = "dump" || kind = "race" then begin
+        let e = canon_gs (goroutines_of (parse_sx expect)) in
+        let p = if kind = "dump" then "prop:C01" else "prop:C08" in
+        (match i_gs with
+         | None -> flag r (p ^ ":no-snapshot")
+         | Some gs -> if canon_gs gs <> e then flag r (p ^ ":snapshot-differs"));
+        if kind = "dump" && i_err <> "eof" then flag r "prop:C01:error";
+        if kind = "race" && i_err <> "nil" then flag r "prop:C08:error"
+      end;
+      (* ---- C11: at every Read everything complete and not withheld has been written ---- *)
+      (* every complete line delivered before the first consumed line is written before the next Read:
+         with D the withheld region, the bytes written at a Read issued after k bytes were delivered
+         must cover all complete lines within the first min(k, |fwd|) bytes *)
+      ()
+    end
+  | _ -> failwith "scan: fields"
+
 (* ---------- main loop ---------- *)
 let () =
   let ops : (string, res -> string list -> unit) Hashtbl.t = Hashtbl.create 16 in
   Hashtbl.replace ops "aggregate" op_aggregate;
   Hashtbl.replace ops "less3" op_less3;
+  Hashtbl.replace ops "scan" op_scan;
   (try
     while true do
       let line = input_line stdin in
